@@ -52,6 +52,34 @@ type Step struct {
 type Cfg struct {
 	StartupTaint bool `json:"startupTaint"`
 	ExtRes       bool `json:"extRes"`
+	// TaintVariant: how the taints the kubelet/cloud puts on the node differ from the declared ones although they are
+	// the same taints by Kubernetes' MatchTaint (key+effect): 0 identical; 1 the startup taint carries a value and the
+	// ephemeral taint is not-ready:NoExecute with timeAdded; 2 the startup taint carries timeAdded and the ephemeral
+	// taint is unreachable:NoSchedule
+	TaintVariant int `json:"taintVariant"`
+}
+
+func startupTaintOnNode(v int, at time.Time) corev1.Taint {
+	t := corev1.Taint{Key: startupKey, Effect: corev1.TaintEffectNoSchedule}
+	switch v {
+	case 1:
+		t.Value = "custom"
+	case 2:
+		ta := metav1.NewTime(at)
+		t.TimeAdded = &ta
+	}
+	return t
+}
+
+func ephTaintOnNode(v int, at time.Time) corev1.Taint {
+	switch v {
+	case 1:
+		ta := metav1.NewTime(at)
+		return corev1.Taint{Key: corev1.TaintNodeNotReady, Effect: corev1.TaintEffectNoExecute, TimeAdded: &ta}
+	case 2:
+		return corev1.Taint{Key: corev1.TaintNodeUnreachable, Effect: corev1.TaintEffectNoSchedule}
+	}
+	return corev1.Taint{Key: ephemeralKey, Effect: corev1.TaintEffectNoSchedule}
 }
 
 type Behaviour struct {
@@ -103,10 +131,12 @@ func (s *sim) mem() {
 func (s *sim) reconcile(st Step) {
 	nc := &v1.NodeClaim{ObjectMeta: metav1.ObjectMeta{Name: claimName}}
 	if !s.w.Get(nc) {
-		s.w.Emit(trace.M{"e": "Skip", "a": "Rec", "why": "no-claim"})
-		return
-	}
-	if st.Stale == 0 || s.view == nil {
+		// the object is gone; a lagging informer may still hand the controller its copy
+		if st.Stale == 0 || s.view == nil {
+			s.w.Emit(trace.M{"e": "Skip", "a": "Rec", "why": "no-claim"})
+			return
+		}
+	} else if st.Stale == 0 || s.view == nil {
 		s.view = nc.DeepCopy()
 	}
 	obj := s.view.DeepCopy()
@@ -166,10 +196,10 @@ func (s *sim) step(cfg Cfg, st Step) error {
 		inst := w.Prov.Instances[pid]
 		n := world.NodeFor(inst.NodeClaim, nodeName, st.Unreg)
 		if st.Startup && cfg.StartupTaint {
-			n.Spec.Taints = append(n.Spec.Taints, corev1.Taint{Key: startupKey, Effect: corev1.TaintEffectNoSchedule})
+			n.Spec.Taints = append(n.Spec.Taints, startupTaintOnNode(cfg.TaintVariant, w.Clock.Now()))
 		}
 		if st.Eph {
-			n.Spec.Taints = append(n.Spec.Taints, corev1.Taint{Key: ephemeralKey, Effect: corev1.TaintEffectNoSchedule})
+			n.Spec.Taints = append(n.Spec.Taints, ephTaintOnNode(cfg.TaintVariant, w.Clock.Now()))
 		}
 		world.SetNodeReady(n, st.Ready, w.Clock.Now())
 		if cfg.ExtRes {
@@ -182,7 +212,8 @@ func (s *sim) step(cfg Cfg, st Step) error {
 		}
 		w.EnvCreate(n)
 	case "RemoveTaint":
-		key := map[string]string{"unreg": v1.UnregisteredTaintKey, "startup": startupKey, "eph": ephemeralKey}[st.Which]
+		key := map[string]string{"unreg": v1.UnregisteredTaintKey, "startup": startupKey,
+			"eph": ephTaintOnNode(cfg.TaintVariant, w.Clock.Now()).Key}[st.Which]
 		n := s.node()
 		if !w.EnvMutate(n, "RemoveTaint-"+st.Which, func() {
 			var keep []corev1.Taint
@@ -214,7 +245,7 @@ func (s *sim) step(cfg Cfg, st Step) error {
 		s.restart()
 		s.view = nil
 		w.Emit(trace.M{"e": "Restart"})
-	case "UserDelete":
+	case "ClaimGone", "UserDelete":
 		nc := &v1.NodeClaim{ObjectMeta: metav1.ObjectMeta{Name: claimName}}
 		if w.Get(nc) {
 			_ = w.Client.Delete(world.WithActor(context.Background(), "env"), nc)
@@ -261,7 +292,7 @@ func RunOne(b Behaviour, tw *trace.Writer) error {
 	s := &sim{w: w, ctx: world.Ctx()}
 	behJSON, _ := json.Marshal(b)
 	tw.Begin(trace.M{"module": "Lifecycle", "behJson": string(behJSON), "launchTimeout": int(nclifecycle.LaunchTimeout / time.Second), "regTimeout": 900,
-		"startupTaint": b.Cfg.StartupTaint, "extRes": b.Cfg.ExtRes, "startupKey": startupKey, "extResName": extResName,
+		"startupTaint": b.Cfg.StartupTaint, "extRes": b.Cfg.ExtRes, "taintVariant": b.Cfg.TaintVariant, "startupKey": startupKey, "extResName": extResName,
 		"claim": claimName, "pool": poolName})
 	w.Sink = tw.Emit
 	w.EnvCreate(world.NodeClass())
@@ -277,6 +308,7 @@ func RunOne(b Behaviour, tw *trace.Writer) error {
 		nc.Spec.Resources.Requests[corev1.ResourceName(extResName)] = resource.MustParse("1")
 	}
 	w.EnvCreate(nc)
+	s.view = nc.DeepCopy() // the informer delivered the new object
 	s.restart()
 	for _, st := range b.Steps {
 		if err := s.step(b.Cfg, st); err != nil {
